@@ -861,12 +861,12 @@ class BinaryOperatorDefinition:
     @classmethod
     def equality(cls) -> 'BinaryOperatorDefinition':
         t = DataType.PRIMITIVE
-        return cls('=', t, t, DataType.BOOL, infix=True, commutative=True, associative=True)
+        return cls('=', t, t, DataType.BOOL, infix=True, commutative=True)
 
     @classmethod
     def inequality(cls) -> 'BinaryOperatorDefinition':
         t = DataType.PRIMITIVE
-        return cls('!=', t, t, DataType.BOOL, infix=True, commutative=True, associative=True)
+        return cls('!=', t, t, DataType.BOOL, infix=True, commutative=True)
 
     @classmethod
     def less_than(cls) -> 'BinaryOperatorDefinition':
